@@ -239,8 +239,10 @@ def generate(api):
                            "{ let scale = %s; %s }" % (m1.group(1), m2.group(1).replace('fe.attribute(AId::Scale)', 's')), FCFG))
         # feMorphology radius
         p, r, b = rs.find_fn(src, 'convert_morphology')
-        need(r"let\s+mut\s+radius_x\s*=\s*PositiveF32::new\(scale\.width\(\)\)\.unwrap\(\);\s*let\s+mut\s+radius_y\s*=\s*PositiveF32::new\(scale\.height\(\)\)\.unwrap\(\);",
-             b, "feMorphology: default radius = the scale")
+        # since e3b9753 the fallback radius is a constant (1 user unit), not the primitiveUnits scale
+        m = need(r"let\s+mut\s+radius_x\s*=\s*PositiveF32::new\(([\d.]+)\)\.unwrap\(\);\s*let\s+mut\s+radius_y\s*=\s*PositiveF32::new\(([\d.]+)\)\.unwrap\(\);",
+                 b, "feMorphology: constant default radius")
+        ds.append("Definition morph_default : Q * Q := (%s, %s)." % (em.num(m.group(1)), em.num(m.group(2))))
         need(r"let\s+mut\s+rx\s*=\s*0\.0;\s*let\s+mut\s+ry\s*=\s*0\.0;\s*if\s+list\.len\(\)\s*==\s*2\s*\{\s*rx\s*=\s*list\[0\];\s*ry\s*=\s*list\[1\];\s*\}\s*"
              r"else\s+if\s+list\.len\(\)\s*==\s*1\s*\{\s*rx\s*=\s*list\[0\];\s*ry\s*=\s*list\[0\];\s*\}", b, "feMorphology: one / two numbers")
         ds.append("Definition morph_pair (l : list Q) : Q * Q := match l with [a; b] => (a, b) | [a] => (a, a) | _ => (0, 0) end.")
